@@ -9,6 +9,7 @@ import SolverzModel.Driver.C06
 import SolverzModel.Driver.C12
 import SolverzModel.Driver.C11
 import SolverzModel.Driver.C09
+import SolverzModel.Driver.Ode15s
 import SolverzModel.Driver.C01
 open Solverz Solverz.Drv
 
@@ -24,6 +25,7 @@ def stepLine (st : DState) (line : String) : DState × String :=
   | "c12" :: ws => (st, C12.step ws)
   | "c11" :: ws => (st, C11.step ws)
   | "c09" :: ws => (st, C09.step ws)
+  | "o15" :: ws => (st, Ode15s.step ws)
   | "c01" :: ws => (st, C01.step ws)
   | [] => (st, "")
   | _ => (st, "bad-op")
